@@ -294,6 +294,116 @@ theorem foldl_specStep_untouched (d : Int) (acc : Option V) (us : List (Upd V))
     rw [this]
     exact ih acc (fun u' hu' => h u' (List.mem_cons_of_mem _ hu'))
 
+/-! ## Histories with clones -/
+
+section Clones
+variable {σ U : Type}
+
+theorem length_runOp (f : σ → U → σ) (st : List σ) (op : HOp U) :
+    st.length ≤ (runOp f st op).length := by
+  cases op with
+  | clone s =>
+    simp only [runOp]
+    split
+    · simp
+    · exact Nat.le_refl _
+  | upd i u =>
+    simp only [runOp]
+    split
+    · simp
+    · exact Nat.le_refl _
+
+/-- frame property of one step: an object that is not the target keeps its content -/
+theorem getElem?_runOp_of_ne (f : σ → U → σ) (st : List σ) (op : HOp U) (j : Nat)
+    (hj : j < st.length) (h : op.target ≠ some j) : (runOp f st op)[j]? = st[j]? := by
+  cases op with
+  | clone s =>
+    simp only [runOp]
+    split
+    · exact List.getElem?_append_left hj
+    · rfl
+  | upd i u =>
+    simp only [runOp]
+    split
+    · have hne : i ≠ j := fun c => h (by simp [HOp.target, c])
+      exact List.getElem?_set_ne hne
+    · rfl
+
+theorem getElem?_runOps_of_ne (f : σ → U → σ) (st : List σ) (ops : List (HOp U)) (j : Nat)
+    (hj : j < st.length) (h : ∀ op ∈ ops, op.target ≠ some j) : (runOps f st ops)[j]? = st[j]? := by
+  induction ops generalizing st with
+  | nil => rfl
+  | cons op ops ih =>
+    show (runOps f (runOp f st op) ops)[j]? = _
+    rw [ih (runOp f st op) (Nat.lt_of_lt_of_le hj (length_runOp f st op))
+      (fun op' h' => h op' (List.mem_cons_of_mem _ h'))]
+    exact getElem?_runOp_of_ne f st op j hj (h op (List.mem_cons_self ..))
+
+/-- one step commutes with "replay the object's own updates on the common ancestor" -/
+theorem runOp_map_trace (f : σ → U → σ) (x0 : σ) (tr : List (List U)) (op : HOp U) :
+    runOp f (tr.map (fun us => us.foldl f x0)) op = (runOp snoc tr op).map (fun us => us.foldl f x0) := by
+  cases op with
+  | clone s =>
+    simp only [runOp, List.getElem?_map]
+    cases tr[s]? with
+    | none => rfl
+    | some us => simp
+  | upd i u =>
+    simp only [runOp, List.getElem?_map]
+    cases tr[i]? with
+    | none => rfl
+    | some us => simp [List.map_set, snoc, List.foldl_append]
+
+theorem runOps_map_trace (f : σ → U → σ) (x0 : σ) (tr : List (List U)) (ops : List (HOp U)) :
+    runOps f (tr.map (fun us => us.foldl f x0)) ops = (runOps snoc tr ops).map (fun us => us.foldl f x0) := by
+  induction ops generalizing tr with
+  | nil => rfl
+  | cons op ops ih =>
+    show runOps f (runOp f _ op) ops = (runOps snoc (runOp snoc tr op) ops).map _
+    rw [runOp_map_trace, ih]
+
+/-- every update found in a trace was either there before or is an update of the history -/
+theorem mem_trace_runOp (tr : List (List U)) (op : HOp U) (us : List U) (hus : us ∈ runOp snoc tr op)
+    (u : U) (hu : u ∈ us) : (∃ us' ∈ tr, u ∈ us') ∨ ∃ i, op = HOp.upd i u := by
+  cases op with
+  | clone s =>
+    simp only [runOp] at hus
+    split at hus
+    · rename_i x hx
+      rcases List.mem_append.mp hus with h | h
+      · exact Or.inl ⟨us, h, hu⟩
+      · simp only [List.mem_singleton] at h
+        subst h
+        exact Or.inl ⟨us, List.mem_of_getElem? hx, hu⟩
+    · exact Or.inl ⟨us, hus, hu⟩
+  | upd i w =>
+    simp only [runOp] at hus
+    split at hus
+    · rename_i x hx
+      rcases List.mem_or_eq_of_mem_set hus with h | h
+      · exact Or.inl ⟨us, h, hu⟩
+      · subst h
+        rcases List.mem_append.mp hu with h' | h'
+        · exact Or.inl ⟨x, List.mem_of_getElem? hx, h'⟩
+        · simp only [List.mem_singleton] at h'
+          subst h'
+          exact Or.inr ⟨i, rfl⟩
+    · exact Or.inl ⟨us, hus, hu⟩
+
+theorem mem_trace_runOps (tr : List (List U)) (ops : List (HOp U)) (us : List U)
+    (hus : us ∈ runOps snoc tr ops) (u : U) (hu : u ∈ us) :
+    (∃ us' ∈ tr, u ∈ us') ∨ ∃ i, HOp.upd i u ∈ ops := by
+  induction ops generalizing tr with
+  | nil => exact Or.inl ⟨us, hus, hu⟩
+  | cons op ops ih =>
+    rcases ih (runOp snoc tr op) hus with ⟨us', hus', hu'⟩ | ⟨i, hi⟩
+    · rcases mem_trace_runOp tr op us' hus' u hu' with h | ⟨i, hi⟩
+      · exact Or.inl h
+      · exact Or.inr ⟨i, by rw [hi]; exact List.mem_cons_self ..⟩
+    · exact Or.inr ⟨i, List.mem_cons_of_mem _ hi⟩
+
+end Clones
+
 /-! ## Construction from data -/
 
 theorem mem_insertDesc (x y : Int × Item V) (l : List (Int × Item V)) :
